@@ -135,7 +135,7 @@ func NewR1() *R1 {
 }
 
 var specialForms = map[string]bool{"quote": true, "def": true, "set": true, "fn": true, "defn": true, "begin": true, "let": true,
-	"letseq": true, "newScope": true, "cond": true, "and": true, "or": true, "for": true, "break": true, "continue": true}
+	"letseq": true, "newScope": true, "cond": true, "and": true, "or": true, "for": true, "break": true, "continue": true, "assert": true}
 
 // reserved words that def/set/defn refuse (subset relevant to generators)
 var builtinNames = map[string]bool{}
@@ -576,6 +576,18 @@ func (r *R1) evalSpecial(name string, args []*T, sc *Scope) (V, *ctl) {
 			}
 		}
 		return last, nil
+	case "assert":
+		if len(args) != 1 {
+			panic(Unmodelled{"assert arity"})
+		}
+		v, c := r.eval(args[0], sc)
+		if c != nil {
+			return nil, c
+		}
+		if !truthy(v) {
+			return nil, errc("assert", "assertion failed")
+		}
+		return VNil{}, nil
 	case "break", "continue":
 		k := byte('b')
 		if name == "continue" {
